@@ -101,7 +101,7 @@ func GenDoc(t *rapid.T, o GenOpts) Doc {
 		switch rapid.SampledFrom(kinds).Draw(t, "kind") {
 		case BPara:
 			b := Block{Kind: BPara}
-			if o.NoEmptyParas || rapid.IntRange(0, 9).Draw(t, "empty") > 0 {
+			if o.NoEmptyParas || rapid.IntRange(0, 9).Draw(t, "empty") < 9 {
 				b.Runs = g.para(false, 3)
 			}
 			b.Style = rapid.SampledFrom([]string{"", "", "body", "quote"}).Draw(t, "pstyle")
@@ -150,7 +150,7 @@ func GenDoc(t *rapid.T, o GenOpts) Doc {
 
 func (g *genState) level() int {
 	// levels 1-6 are the common ones; 7-9 exist in both formats
-	if g.o.MaxLevel > 6 && rapid.IntRange(0, 5).Draw(g.t, "deep") == 0 {
+	if g.o.MaxLevel > 6 && rapid.IntRange(0, 5).Draw(g.t, "deep") == 5 {
 		return rapid.IntRange(7, g.o.MaxLevel).Draw(g.t, "level")
 	}
 	hi := g.o.MaxLevel
@@ -163,7 +163,7 @@ func (g *genState) level() int {
 func (g *genState) listDef(i int) ListDef {
 	t := g.t
 	var ld ListDef
-	uniform := g.o.NoMixedLists || rapid.IntRange(0, 2).Draw(t, "uniform") > 0
+	uniform := g.o.NoMixedLists || rapid.IntRange(0, 2).Draw(t, "mixed") < 2
 	first := rapid.SampledFrom(AllListKinds).Draw(t, "lkind")
 	for lvl := 0; lvl < 4; lvl++ {
 		k := first
@@ -219,9 +219,9 @@ func (g *genState) para(plain bool, maxRuns int) Para {
 				trail := ""
 				if !plain {
 					switch rapid.IntRange(0, 5).Draw(t, "blank") {
-					case 0:
+					case 4:
 						lead = " "
-					case 1:
+					case 5:
 						trail = " "
 					}
 				}
@@ -243,7 +243,7 @@ func (g *genState) para(plain bool, maxRuns int) Para {
 		if !o.NoStyledRuns {
 			run.Styled = rapid.Bool().Draw(t, "styled")
 		}
-		if !plain && len(o.Wraps) > 0 && rapid.IntRange(0, 3).Draw(t, "wrapped") == 0 {
+		if !plain && len(o.Wraps) > 0 && rapid.IntRange(0, 3).Draw(t, "wrapped") == 3 {
 			run.Wrap = rapid.SampledFrom(o.Wraps).Draw(t, "wrap")
 			if run.Wrap == WNest {
 				run.Styled = true
@@ -323,11 +323,11 @@ func (g *genState) table() *Table {
 				cell.RS, cell.CS = m.rs, m.cs
 			}
 			np := 1
-			if !o.NoMultiPara && rapid.IntRange(0, 3).Draw(t, "multi") == 0 {
+			if !o.NoMultiPara && rapid.IntRange(0, 3).Draw(t, "multi") == 3 {
 				np = rapid.IntRange(2, 3).Draw(t, "nparas")
 			}
 			for k := 0; k < np; k++ {
-				if np == 1 && rapid.IntRange(0, 7).Draw(t, "emptycell") == 0 {
+				if np == 1 && rapid.IntRange(0, 7).Draw(t, "emptycell") == 7 {
 					cell.Paras = append(cell.Paras, nil) // empty cell: one empty paragraph
 					continue
 				}
@@ -336,7 +336,7 @@ func (g *genState) table() *Table {
 			tb.Cells = append(tb.Cells, cell)
 		}
 	}
-	if !o.NoHeaderRows && tb.Rows > 1 && rapid.IntRange(0, 3).Draw(t, "hdrrows") == 0 {
+	if !o.NoHeaderRows && tb.Rows > 1 && rapid.IntRange(0, 3).Draw(t, "hdrrows") == 3 {
 		// a header block must not cut a vertical merge
 		h := 1
 		ok := true
